@@ -653,8 +653,12 @@ func (e *c19Env) action() {
 		e.logf("donate pool%d %s%s ok=%v", p.id, amt, d, ok)
 	case x < 86: // swap fees accumulate at the pair's fee collector (fed directly)
 		amt := sdkmath.NewInt(r.Int63n(5_000_000_000) + 1)
-		ok := e.tx(c19Misc, banktypes.NewMsgSend(c.Accts[c19Misc].Addr, p.feeAddr, sdk.NewCoins(sdk.NewCoin("ucmdx", amt))), "feed_swap_fees")
-		e.logf("swapfees pair%d %sucmdx ok=%v", p.pairID, amt, ok)
+		fd := "ucmdx"
+		if gp, err := c.App.LiquidityKeeper.GetGenericParams(c.Ctx(), e.appID); err == nil && gp.SwapFeeDistrDenom != "" {
+			fd = gp.SwapFeeDistrDenom
+		}
+		ok := e.tx(c19Misc, banktypes.NewMsgSend(c.Accts[c19Misc].Addr, p.feeAddr, sdk.NewCoins(sdk.NewCoin(fd, amt))), "feed_swap_fees")
+		e.logf("swapfees pair%d %s%s ok=%v", p.pairID, amt, fd, ok)
 	case x < 92: // pool coins move between farmers
 		g := 1 + r.Intn(e.nF)
 		bal := c.Bal(c.Accts[f].Addr, p.coinDenom)
@@ -664,6 +668,20 @@ func (e *c19Env) action() {
 		amt := c19RandInt(r, bal).AddRaw(1)
 		ok := e.tx(f, banktypes.NewMsgSend(c.Accts[f].Addr, c.Accts[g].Addr, sdk.NewCoins(sdk.NewCoin(p.coinDenom, amt))), "send_poolcoin")
 		e.logf("send u%d->u%d %s%s ok=%v", f, g, amt, p.coinDenom, ok)
+	case x < 93 && len(e.ops) > 60: // governance changes the denomination swap fees are distributed in
+		gp, err := c.App.LiquidityKeeper.GetGenericParams(c.Ctx(), e.appID)
+		if err != nil {
+			return
+		}
+		nd := "ucmdx"
+		if gp.SwapFeeDistrDenom == "ucmdx" {
+			nd = e.assets[r.Intn(len(e.assets))].denom
+		}
+		err = c.App.LiquidityKeeper.UpdateGenericParams(c.Ctx(), e.appID, []string{"SwapFeeDistrDenom"}, []string{nd})
+		e.logf("params SwapFeeDistrDenom %s -> %s err=%v", gp.SwapFeeDistrDenom, nd, err)
+		if err == nil {
+			e.rec.Count("swap_fee_denom_switches", 1)
+		}
 	default:
 		if e.nGauges < 7 {
 			e.createGauge(len(e.ops) > 150)
